@@ -353,8 +353,9 @@ def check_initial_expansion(run, A):
 
 def check(run):
     A = run.A
-    from ..opt import check_axisless_squeeze
+    from ..opt import check_axisless_squeeze, check_layout_dependent_flatten
     check_axisless_squeeze(run, A, ('pb_bss.distribution.',))
+    check_layout_dependent_flatten(run, A, ('pb_bss.distribution.', 'pb_bss.utils'))
     check_initial_expansion(run, A)
     check_rank_dispatch(run, A)
     run.explanation = (
